@@ -58,7 +58,7 @@ def main() -> int:
     demo = os.path.join(src, f"{args.mut}_demo.py")
     note = os.path.join(src, f"{args.mut}.md")
     for f in (diff, demo):
-        if not os.path.exists(f):
+        if not args.recheck and not os.path.exists(f):
             print("missing", f)
             return 2
     sid0 = f"{args.prop}-{args.mut}"
